@@ -667,7 +667,7 @@ Proof.
 Qed.
 
 Example ex_pre_nonvacuous :
-  pre {| c_k := 2; c_fail := ({| g_id := 0; g_n := 0; g_end := true |}, 0%nat); c_init := []; c_tr := map (fun o => (o, {| b_ok := true; b_infos := []; b_log := [] |})) ex_ops |} = true.
+  pre {| c_k := 2; c_fail := ({| g_id := 0; g_n := 0; g_end := true |}, 0%nat); c_init := []; c_tr := map (fun o => (o, {| b_ok := true; b_infos := []; b_keys := []; b_log := [] |})) ex_ops |} = true.
 Proof. vm_compute. reflexivity. Qed.
 
 (* ---------------------------------------------------------------- MultiEpochHooks fan-out *)
@@ -776,4 +776,74 @@ Lemma fan_ok_sound k o r :
 Proof.
   unfold fan_ok. intros H Hr. apply (list_eqb_eq rec_hook_eqb rec_hook_eqb_eq) in H. rewrite <- H.
   apply fanout_each_hook_sees_every_call. exact Hr.
+Qed.
+
+(* ---------------------------------------------------------------- the store: one info per identifier, under its own key *)
+
+(** The model keeps one info per identifier (the store key IS the identifier: AddEpochInfo inserts under
+    epoch.Identifier, BeginBlocker writes back under epochInfo.Identifier — Gen/C14Facts.v).  Identifiers are arbitrary
+    strings; the model only uses their equality and order. *)
+
+Lemma length_begin_block s t h : length (fst (begin_block s t h)) = length s.
+Proof. rewrite begin_block_eq. cbn [fst]. apply map_length. Qed.
+
+Lemma length_insert x s : length (insert x s) = S (length s).
+Proof.
+  induction s as [|e s IH]; [reflexivity|]. cbn [insert]. destruct (Nat.ltb (e_id x) (e_id e)); cbn [length]; [reflexivity|].
+  rewrite IH. reflexivity.
+Qed.
+
+(** number of stored infos after each op: initial ones + accepted additions; blocks (committed or aborted) add none *)
+Fixpoint count_P (n : nat) (tr : list (op * out)) : Prop :=
+  match tr with
+  | [] => True
+  | (o, x) :: r =>
+      let n' := match o with Add _ _ _ => if o_ok x then S n else n | Block _ _ => n end in
+      length (o_infos x) = n' /\ count_P n' r
+  end.
+
+Theorem store_invariant g : forall ops s lf,
+  NoDup (ids s) ->
+  Forall (fun x => NoDup (ids (o_infos x))) (snd (run_f g (s, lf) ops)) /\
+  count_P (length s) (combine ops (snd (run_f g (s, lf) ops))).
+Proof.
+  induction ops as [|o r IH]; intros s lf N; [split; [constructor|exact I]|].
+  rewrite run_f_cons. cbn [snd combine count_P]. destruct o as [t h|ct ch a].
+  - rewrite step_f_block.
+    assert (N' : NoDup (ids (fst (begin_block s t h)))) by (rewrite ids_begin_block; exact N).
+    destruct lf as [|lf]; [|destruct (existsb (hook_matches g) (snd (begin_block s t h)))]; cbn [fst snd o_ok o_infos].
+    + destruct (IH (fst (begin_block s t h)) O N') as [A B]. rewrite length_begin_block in *.
+      split; [constructor; assumption|split; [reflexivity|exact B]].
+    + destruct (IH s lf N) as [A B]. split; [constructor; assumption|split; [reflexivity|exact B]].
+    + destruct (IH (fst (begin_block s t h)) (S lf) N') as [A B]. rewrite length_begin_block in *.
+      split; [constructor; assumption|split; [reflexivity|exact B]].
+  - rewrite step_f_add. cbn [fst snd o_ok o_infos].
+    destruct (add_epoch_cases s ct ch a) as [E|[Hid E]]; rewrite E; cbn [fst snd].
+    + destruct (IH s lf N) as [A B]. split; [constructor; assumption|split; [reflexivity|exact B]].
+    + assert (N' : NoDup (ids (insert (added ct ch a) s))).
+      { apply NoDup_insert; [exact N|]. cbn. intro X. apply has_id_ids in X. congruence. }
+      destruct (IH _ lf N') as [A B]. rewrite length_insert in *.
+      split; [constructor; assumption|split; [reflexivity|exact B]].
+Qed.
+
+Lemma nodupb_sound l : nodupb l = true -> NoDup l.
+Proof.
+  induction l as [|x l IH]; intro H; [constructor|]. cbn in H. apply andb_true_iff in H. destruct H as [A B].
+  constructor; [|apply IH; exact B]. intro X. apply negb_true_iff in A.
+  assert (existsb (Nat.eqb x) l = true) by (apply existsb_exists; exists x; split; [exact X|apply Nat.eqb_refl]). congruence.
+Qed.
+
+Lemma nat_list_eqb_eq a b : list_eqb Nat.eqb a b = true -> a = b.
+Proof. apply list_eqb_eq. intros x y H. apply Nat.eqb_eq. exact H. Qed.
+
+Lemma keys_ok_sound o : keys_ok o = true -> b_keys o = ids (b_infos o) /\ NoDup (ids (b_infos o)).
+Proof.
+  unfold keys_ok. intro H. apply andb_true_iff in H. destruct H as [A B]. apply nat_list_eqb_eq in A.
+  split; [exact A|]. rewrite <- A. apply nodupb_sound. exact B.
+Qed.
+
+Lemma count_ok_sound : forall tr n, count_ok n tr = true -> count_P n (map (fun x => (fst x, to_out (snd x))) tr).
+Proof.
+  induction tr as [|[o x] r IH]; intros n H; [exact I|]. cbn [count_ok map fst snd count_P] in *.
+  apply andb_true_iff in H. destruct H as [A B]. apply Nat.eqb_eq in A. split; [exact A|]. apply IH. exact B.
 Qed.
